@@ -460,6 +460,44 @@ func init() {
 			r.Case(L(I(3), I(5), I(0), I(0), Bs(""), cv), ids(cc.FilterWithTables()), "filter", nc >= 2)
 			r.Case(L(I(3), I(6), I(0), I(0), Bs(""), cv), ids(cc.FilterWithLists()), "filter", nc >= 2)
 			r.Case(L(I(3), I(7), I(0), I(0), Bs(""), cv), ids(cc.FilterWithImages()), "filter", nc >= 2)
+			// each named filter returns exactly the chunks satisfying its predicate, in order
+			same := func(got *rag.ChunkCollection, pred func(c *rag.Chunk) bool) bool {
+				var want []string
+				for _, c := range chunks {
+					if pred(c) {
+						want = append(want, c.ID)
+					}
+				}
+				if len(want) != len(got.Chunks) {
+					return false
+				}
+				for i := range want {
+					if got.Chunks[i].ID != want[i] {
+						return false
+					}
+				}
+				return true
+			}
+			inSec := func(c *rag.Chunk) bool {
+				if c.Metadata.SectionTitle == sec {
+					return true
+				}
+				for _, s := range c.Metadata.SectionPath {
+					if s == sec {
+						return true
+					}
+				}
+				return false
+			}
+			fcv := L(I(3), I(2), I(a), I(b), Bs(sec), cv)
+			r.Check(same(cc.FilterBySection(sec), inSec), "filter-section", "FilterBySection does not return exactly the chunks in that section", fcv)
+			r.Check(same(cc.FilterByPage(a), func(c *rag.Chunk) bool { return a >= c.Metadata.PageStart && a <= c.Metadata.PageEnd }), "filter-page", "FilterByPage does not return exactly the chunks on that page", fcv)
+			r.Check(same(cc.FilterByPageRange(a, b), func(c *rag.Chunk) bool { return c.Metadata.PageEnd >= a && c.Metadata.PageStart <= b }), "filter-page-range", "FilterByPageRange does not return exactly the chunks overlapping the range", fcv)
+			r.Check(same(cc.FilterByMinTokens(a*40), func(c *rag.Chunk) bool { return c.Metadata.EstimatedTokens >= a*40 }), "filter-tokens", "FilterByMinTokens is wrong", fcv)
+			r.Check(same(cc.FilterByMaxTokens(a*40), func(c *rag.Chunk) bool { return c.Metadata.EstimatedTokens <= a*40 }), "filter-tokens", "FilterByMaxTokens is wrong", fcv)
+			r.Check(same(cc.FilterWithTables(), func(c *rag.Chunk) bool { return c.Metadata.HasTable }) && same(cc.FilterWithLists(), func(c *rag.Chunk) bool { return c.Metadata.HasList }) && same(cc.FilterWithImages(), func(c *rag.Chunk) bool { return c.Metadata.HasImage }), "filter-flags", "FilterWith* is wrong", fcv)
+			kw := "LINE"
+			r.Check(same(cc.Search(kw), func(c *rag.Chunk) bool { return strings.Contains(strings.ToLower(c.Text), "line") }), "filter-search", "Search does not return exactly the chunks containing the keyword", fcv)
 			// chaining = conjunction, in order
 			ch := cc.FilterWithTables().FilterByPage(a)
 			var want []string
